@@ -153,6 +153,7 @@ type Frame struct {
 	lockSnaps    map[string]*State
 	lastLockSnap *State
 	callSnaps    map[string]*State // state before call sites carrying asserts (atcall)
+	callReach    map[string][]string // path conditions of the call sites met so far, by callee (called(X))
 	callArgs     map[string]map[string]sval
 	loopIdxTerms []string // loop counters, offered as witnesses for existentials to be proved
 	ownObjs      []string // objects allocated by this symbolic execution (initonly.go)
